@@ -69,7 +69,10 @@ def gen(rng, tier):
         muedges = [float(x) for x in np.linspace(0, 1, nmu + 1)]
     else:
         muedges = [0.0] + sorted(rng.uniform(0.02, 0.98) for _ in range(nmu - 1)) + [1.0]
-    poles = sorted(rng.sample([0, 2, 4, 6], rng.choice([0, 0, 1, 2, 3, 4])))
+    pool = [0, 2, 4, 6] if rng.random() < 0.6 else [0, 1, 2, 3, 4, 5, 6]
+    poles = rng.sample(pool, min(len(pool), rng.choice([0, 0, 1, 2, 3, 4])))
+    if rng.random() < 0.7:
+        poles = sorted(poles)
     pimax_class = rng.choice(['below', 'at', 'above'])
     pimax = {'below': max(0.6, n / 4.0 + 0.25), 'at': n / 2.0, 'above': n / 2.0 + 1.7}[pimax_class] * dk
     return {'which': which, 'n': n, 'L': L, 'kedges': edges, 'muedges': muedges, 'poles': poles,
@@ -146,7 +149,7 @@ def _oracle(out, site, case, res, ref):
             return
         cleank = ~ref['amb_k'] & (ref['cnt_lo'].sum(axis=1) > 0)
         for ip, ell in enumerate(case['poles']):
-            scale = (2 * ell + 1) * (1.0 if ell == 0 else 4.0 ** (ell // 2))
+            scale = (2 * ell + 1) * (1.0 if ell == 0 else 4.0 ** ((ell + 1) // 2))
             tolp = 64 * EPS32 * scale * ref['abs'].sum(axis=1) / np.maximum(ref['cnt_lo'].sum(axis=1), 1) + 1e-30
             dp = np.abs(pmean[ip].astype(np.float64) - ref['poles'][ip])
             badp = cleank & ~(dp <= tolp)
